@@ -751,15 +751,15 @@ SPECS = [
     dict(file=ELEGANT, fn="convert_lattice_to_cheetah", coq="gen_elegant_merge_passes", kind="passes", part="merge passes"),
     dict(file=NAMELIST, fn="define_element", coq="gen_define_element_pattern", kind="literal", var="pattern", part="regex literal"),
     dict(file=NAMELIST, fn="merge_delimiter_continued_lines", coq="gen_merge_delimiter_continued_lines_ast_sha256", kind="astpin", part="AST pin"),
-    dict(file=LJSON, fn="convert_element", coq="gen_lj_convert_element", kind="lj", params=[("element", "leaf")], ret="(str,str,dictJv)", locals={},
+    dict(file=LJSON, fn="convert_element", coq="gen_lj_convert_element", kind="lj", params=[("element", "leaf")], ret="(str,str,dictJv)", locals=[],
          section="lj"),
     dict(file=LJSON, fn="convert_segment", coq="gen_lj_convert_segment", kind="lj", params=[("segment", "tree")], ret="(dictJ,dictL)",
-         rec="tree P -> option (dict J * dict (list string))", locals={"elements": "dictJ", "lattices": "dictL", "cell": "strlist"},
+         rec="tree P -> option (dict J * dict (list string))", locals=["dictJ", "dictL", "strlist"],
          calls={"convert_element": ("gen_lj_convert_element", ["leaf"], "(str,str,dictJv)", [])}, section="lj"),
     dict(file=LJSON, fn="parse_element", coq="gen_lj_parse_element", kind="lj", params=[("name", "str"), ("lattice_dict", "ldict")], ret="tree",
-         locals={}, section="lj"),
+         locals=[], section="lj"),
     dict(file=LJSON, fn="parse_segment", coq="gen_lj_parse_segment", kind="lj", params=[("name", "str"), ("lattice_dict", "ldict")], ret="tree",
-         rec="string -> option (tree P)", locals={"elements": "treelist"},
+         rec="string -> option (tree P)", locals=["treelist"],
          calls={"parse_element": ("gen_lj_parse_element", ["str", "ldict"], "tree", ["E", "LL"])}, section="lj"),
 ]
 
@@ -895,6 +895,7 @@ class LJ:
     def __init__(self, mod, f, coq_name, spec):
         self.mod, self.f, self.coq_name, self.spec = mod, f, coq_name, spec
         self.used = set(BASE_NAMES) | {"P", "J", "V", "Jv", "Cls", "E", "LL"}
+        self.n_containers = 0
 
     def fail(self, node, reason):
         self.mod.fail(node, reason)
@@ -1166,9 +1167,13 @@ class LJ:
             if isinstance(t, ast.Name):
                 v = self.ev(s.value, env, pre)
                 if v.ty in ("dict?", "list?"):
-                    want = self.spec["locals"].get(t.id)
-                    if want is None:
-                        self.fail(s, f"local container {t.id!r} is not in the spec")
+                    # the types of the empty containers are given by the spec in the ORDER of their initialisation (not by name)
+                    if self.n_containers >= len(self.spec["locals"]):
+                        self.fail(s, f"unexpected empty container {t.id!r} (the spec lists {len(self.spec['locals'])})")
+                    want = self.spec["locals"][self.n_containers]
+                    self.n_containers += 1
+                    if want.startswith("dict") != (v.ty == "dict?"):
+                        self.fail(s, f"container {t.id!r}: a {v.ty[:-1]} where the spec expects {want}")
                     v = Val(f"([] : {LJ_TY[want]})", want)
                 if pre and pre[-1][0] == v.t:
                     return self.wrap(pre, go(self.rebind(env, t.id, v)))
@@ -1371,13 +1376,17 @@ EXTRA.update(passes=_passes, literal=_literal, astpin=_astpin)
 
 
 def locate(repo):
-    """Only locate the functions of SPECS: [(name, file, first_line, last_line, sha256)]."""
+    """Only locate the functions of SPECS: [(name, file, first_line, last_line, sha256)].  For the kinds that cover only a PART of a
+    function (`literal`: the regex literal; `passes`: the merge passes) the hash is that of the covered part (the generated text)."""
     tr, out = Translator(repo), []
     for spec in SPECS:
         mod = tr.module(spec["file"])
         _, f, _ = mod.find_function(spec.get("cls"), spec["fn"])
         first, last, seg = mod.segment(f)
-        out.append((f"{Path(spec['file']).stem}.{spec['fn']}", spec["file"], first, last, hashlib.sha256(seg.encode()).hexdigest()))
+        if spec["kind"] in ("literal", "passes"):
+            seg = EXTRA[spec["kind"]](tr, mod, f, spec)
+        out.append((f"{Path(spec['file']).stem}.{spec['fn']}" + (f"[{spec['part']}]" if spec.get("part") else ""), spec["file"], first, last,
+                    hashlib.sha256(seg.encode()).hexdigest()))
     return out
 
 
